@@ -50,6 +50,25 @@ pub fn passes(tier: &str) -> Vec<Pass> {
     v
 }
 
+pub fn bodies(tier: &str) -> Vec<crate::e3::BodySpec> {
+    use crate::props::c06::{Act, Finals, Kind, VisBody};
+    use std::sync::Arc;
+    let q = tier == "quick";
+    vec![crate::e3::BodySpec {
+        // x has a sealed memtable and a queued flush; the worker's flush rotates the journal (position override) and runs
+        // journal maintenance; meanwhile a writer inserts into y. A crash image taken after everything was acknowledged
+        // must still hold y's write, whatever journal files were deleted.
+        body: Arc::new(VisBody { name: "worker: journal rotation + flush x + maintenance || insert y; crash image [jrot]", kind: Kind::Plain, workers: 1, keyspaces: vec!["x", "y"], initial: vec![("x", "a", "0")], prerotate: vec!["x"], threads: vec![vec![Act::Ins(("y", "a", "1"))]], finals: Finals::CrashImage }),
+        bound: 2,
+        secs: if q { 5.0 } else { 200.0 },
+    }, crate::e3::BodySpec {
+        // the same with y's memtable holding older data and a second writer on x
+        body: Arc::new(VisBody { name: "worker: journal rotation + flush x + maintenance || insert y || insert x; crash image [jrot]", kind: Kind::Plain, workers: 1, keyspaces: vec!["x", "y"], initial: vec![("x", "a", "0"), ("y", "b", "0")], prerotate: vec!["x"], threads: vec![vec![Act::Ins(("y", "a", "1"))], vec![Act::Ins(("x", "b", "1"))]], finals: Finals::CrashImage }),
+        bound: if q { 1 } else { 2 },
+        secs: if q { 4.0 } else { 200.0 },
+    }]
+}
+
 pub fn run(tier: &str) -> i32 {
     let t0 = Instant::now();
     let mut o = Outcome::new("C10", tier, "model_checking");
@@ -63,11 +82,21 @@ pub fn run(tier: &str) -> i32 {
     if wit.journal_deleted == 0 || wit.journal_rotated == 0 {
         o.machinery_errors.push(format!("reachability witness missing: {:?}", wit));
     }
+    crate::e3::fold_e3(&mut o, "C10", tier, &bodies(tier), "e3_");
     o.wall_s = t0.elapsed().as_secs_f64();
     finish(o)
 }
 
 pub fn replay(v: &serde_json::Value) -> i32 {
+    if v["engine"] == "E3-schedcheck" {
+        let tier = v["variant"]["tier"].as_str().unwrap_or("quick");
+        let bi = v["variant"]["body_index"].as_u64().unwrap_or(0) as usize;
+        let choices: Vec<usize> = v["variant"]["choices"].as_array().map(|a| a.iter().filter_map(|c| c.as_u64().map(|c| c as usize)).collect()).unwrap_or_default();
+        return match bodies(tier).get(bi) {
+            Some(b) => crate::e3::replay_schedule(&*b.body, &choices),
+            None => 2,
+        };
+    }
     let name = v["variant"]["pass"].as_str().unwrap_or("");
     let plen = v["variant"]["prefix_len"].as_u64().unwrap_or(0) as usize;
     let program: Vec<String> = v["program"].as_array().map(|a| a.iter().filter_map(|s| s.as_str().map(String::from)).collect()).unwrap_or_default();
